@@ -210,7 +210,7 @@ type callObs struct {
 	ObjKind string `json:"obj_kind"`
 }
 
-func runStep(self, root, layout string, pc pipeCase, st pipeStep, scratch string, n int) (map[string]any, error) {
+func runStep(self, root, layout string, pc pipeCase, st pipeStep, scratch string, n int, warm map[string]string) (map[string]any, error) {
 	pre, err := project(root, layout)
 	if err != nil {
 		return nil, err
@@ -292,6 +292,9 @@ func runStep(self, root, layout string, pc pipeCase, st pipeStep, scratch string
 	for _, g := range st.Gens {
 		spec.Gens = append(spec.Gens, pipe.GenSpec{Name: g, Newer: pc.Newer, Stateful: pc.Stateful})
 	}
+	for _, path := range core.SortedKeys(warm) {
+		spec.Warm = append(spec.Warm, pipe.WarmFile{Path: path, Old: warm[path]})
+	}
 	specPath := filepath.Join(scratch, fmt.Sprintf("spec-%d.json", n))
 	b, _ := json.Marshal(spec)
 	if err := os.WriteFile(specPath, b, 0o644); err != nil {
@@ -369,16 +372,38 @@ func runStep(self, root, layout string, pc pipeCase, st pipeStep, scratch string
 	return obs, nil
 }
 
-func envStep(root, layout, variant string, st pipeStep, version int) error {
+func envStep(root, layout, variant string, st pipeStep, version int, warm map[string]string) error {
 	pdir := func(pkg string) string { return filepath.Join(root, pipe.Layouts[layout][pkg]) }
 	switch st.Op {
 	case "edit":
-		return os.WriteFile(filepath.Join(pdir(st.Pkg), "types.go"), []byte(pipe.SrcFile(st.Pkg, version, pipe.Imports[st.Pkg], layout, variant)), 0o644)
+		// the edit keeps the file's size class and its modification time (restore from a backup, rsync -t, cp -p): nothing but the
+		// content may tell gengo that the file changed. The earlier content is remembered for the next run's preliminary load.
+		path := filepath.Join(pdir(st.Pkg), "types.go")
+		old, oerr := os.ReadFile(path)
+		fi, serr := os.Stat(path)
+		nw := []byte(pipe.SrcFile(st.Pkg, version, pipe.Imports[st.Pkg], layout, variant))
+		if err := os.WriteFile(path, nw, 0o644); err != nil {
+			return err
+		}
+		if oerr == nil && serr == nil && len(old) == len(nw) {
+			if err := os.Chtimes(path, fi.ModTime(), fi.ModTime()); err != nil {
+				return err
+			}
+			if warm != nil {
+				if _, seen := warm[path]; !seen {
+					warm[path] = string(old)
+				}
+			}
+		}
+		return nil
 	case "adduser":
 		if strings.HasPrefix(st.File, ".#") {
 			// an editor's lock file: a symbolic link that points nowhere - the directory can be listed but not hashed
 			_ = os.Remove(filepath.Join(pdir(st.Pkg), st.File))
 			return os.Symlink(fmt.Sprintf("nobody@nowhere.%d", version), filepath.Join(pdir(st.Pkg), st.File))
+		}
+		if err := os.MkdirAll(filepath.Dir(filepath.Join(pdir(st.Pkg), st.File)), 0o755); err != nil {
+			return err
 		}
 		return os.WriteFile(filepath.Join(pdir(st.Pkg), st.File), []byte(pipe.UserFileContent(st.Pkg, st.File, version)), 0o644)
 	case "deluser":
@@ -481,6 +506,7 @@ func (pipelineFam) ExecAll(cases []core.CaseIn, seed int64, emit func(c core.Cas
 			if pc.Beh == nil {
 				pc.Beh = [][]string{}
 			}
+			warm := map[string]string{} // files edited since the last run -> their earlier content
 			for k, st := range pc.Steps {
 				if st.Entry == nil {
 					st.Entry = []string{}
@@ -494,14 +520,17 @@ func (pipelineFam) ExecAll(cases []core.CaseIn, seed int64, emit func(c core.Cas
 				cas := map[string]any{"hist": cases[i].ID, "k": k + 1, "reset": k == 0, "layout": pc.Layout, "beh": pc.Beh, "newer": pc.Newer,
 					"stateful": pc.Stateful, "variant": pc.Variant, "step": st, "nsteps": len(pc.Steps)}
 				if st.Op == "run" {
-					obs, err := runStep(self, root, pc.Layout, pc, st, scratch, k)
+					obs, err := runStep(self, root, pc.Layout, pc, st, scratch, k, warm)
+					for p := range warm {
+						delete(warm, p)
+					}
 					if err != nil {
 						errs[i] = fmt.Errorf("history %d step %d: %w", cases[i].ID, k+1, err)
 						return
 					}
 					results[i] = append(results[i], line{cas, map[string]any{}, obs})
 				} else {
-					if err := envStep(root, pc.Layout, pc.Variant, st, k+1); err != nil {
+					if err := envStep(root, pc.Layout, pc.Variant, st, k+1, warm); err != nil {
 						errs[i] = fmt.Errorf("history %d step %d: %w", cases[i].ID, k+1, err)
 						return
 					}
